@@ -138,6 +138,9 @@ type ScriptFS struct {
 	authErrNext  bool // the authentication callback of the request in flight must refuse
 	AutoRelease  bool // parked calls may wake up by themselves after a drawn number of steps
 	FlushAlways  bool // the Flush hook cancels (req.Flush()) whatever it is shown, also a request it has not seen yet
+	// cfg "sharedir": like a file server that keeps one description per file (the library's own Fsrv does), every
+	// Tstat is answered from the same long-lived Dir, whatever the connection and its dialect
+	sharedDir *go9p.Dir
 }
 
 func NewScriptFS(x *Ctx) *ScriptFS {
@@ -306,6 +309,17 @@ func (f *ScriptFS) answer(inv *Inv, variant int) {
 		f.setExpect(inv, variant, m)
 		req.RespondRremove()
 	case "stat":
+		if f.x.C.cfg("sharedir") != 0 && p.StatNameLen == 0 {
+			if f.sharedDir == nil {
+				f.sharedDir = &go9p.Dir{Type: 7, Dev: 9, Qid: go9p.Qid{Type: 0, Version: 1, Path: 4242}, Mode: 0o644, Atime: 5, Mtime: 6, Length: 77,
+					Name: "kept-by-the-file-server", Uid: "uid", Gid: "gid", Muid: "muid", Ext: "", Uidnum: 1, Gidnum: 2, Muidnum: 3}
+			}
+			m = &Msg{Type: Rstat, Stat: Stat{Type: 7, Dev: 9, Qid: Qid{0, 1, 4242}, Mode: 0o644, Atime: 5, Mtime: 6, Length: 77,
+				Name: "kept-by-the-file-server", Uid: "uid", Gid: "gid", Muid: "muid", Nuid: 1, Ngid: 2, Nmuid: 3}}
+			f.setExpect(inv, variant, m)
+			req.RespondRstat(f.sharedDir)
+			return
+		}
 		name := fmt.Sprintf("n%06x", u&0xFFFFFF)
 		for len(name) < p.StatNameLen {
 			name += "s"
